@@ -404,12 +404,42 @@ func SeacFont(t *sim.Tape) ([]byte, string) {
 		f.Encoding[200+i] = n
 		f.Glyphs[n] = &type1.Glyph{WidthX: float64(300 + 10*i)}
 	}
+	// optional extras, injected the same way: a glyph whose first point is NaN
+	// (`0 0 div`), and two glyphs that cannot be decoded, each for its own reason
+	extras := map[string][]byte{}
+	if t.Bool(1, 3) {
+		cs := append(append(t1Int(0), t1Int(500)...), 13)                 // 0 500 hsbw
+		cs = append(append(append(cs, t1Int(0)...), t1Int(0)...), 12, 12) // 0 0 div
+		cs = append(append(cs, t1Int(0)...), 21)                          // 0 rmoveto
+		cs = append(append(cs, t1Int(100)...), 6)                         // 100 hlineto
+		cs = append(cs, 9, 14)                                            // closepath endchar
+		extras["Nanglyph"] = cs
+	}
+	if t.Bool(1, 3) {
+		extras["Bad1"] = []byte{13}           // hsbw without operands
+		extras["Tbad2"] = []byte{139, 12, 99} // unknown escape
+		if t.Bool(1, 2) {
+			extras["abad3"] = append(bytes.Repeat([]byte{140}, 30), 14) // operand stack overflow
+		}
+	}
+	for n := range extras {
+		f.Glyphs[n] = &type1.Glyph{WidthX: 500}
+	}
 	file, err := FontFile(f, type1.FormatNoEExec)
 	if err != nil {
 		return nil, "seac font outside the writer's domain"
 	}
+	exNames := make([]string, 0, len(extras))
+	for n := range extras {
+		exNames = append(exNames, n)
+	}
+	sortStrings(exNames)
 	all := append(append([]string{}, base...), comps...)
 	desc := "seac font:"
+	for _, n := range exNames {
+		file = replaceCharstring(file, n, csObfuscate(extras[n]))
+		desc += " " + n + "=injected"
+	}
 	for i, n := range comps {
 		b, a := all[t.Choose(len(all))], all[t.Choose(len(all))]
 		var cs []byte
@@ -425,25 +455,55 @@ func SeacFont(t *sim.Tape) ([]byte, string) {
 		cs = append(cs, 14)    // endchar
 		obf := csObfuscate(cs)
 		desc += fmt.Sprintf(" %s=seac(%s,%s)", n, b, a)
-		// replace the placeholder entry `/name L RD <L bytes> ND`
-		key := []byte("\n/" + n + " ")
-		at := bytes.Index(file, key)
-		if at < 0 {
-			continue
-		}
-		j := at + len(key)
-		l := 0
-		for j < len(file) && file[j] >= '0' && file[j] <= '9' {
-			l = l*10 + int(file[j]-'0')
-			j++
-		}
-		if !bytes.HasPrefix(file[j:], []byte(" RD ")) {
-			continue
-		}
-		end := j + 4 + l // end of the binary data
-		entry := []byte(fmt.Sprintf("\n/%s %d RD ", n, len(obf)))
-		entry = append(entry, obf...)
-		file = append(append(append([]byte{}, file[:at]...), entry...), file[end:]...)
+		file = replaceCharstring(file, n, obf)
 	}
 	return file, desc
+}
+
+// replaceCharstring replaces the placeholder entry `/name L RD <L bytes> ND` of
+// a no-eexec font file.
+func replaceCharstring(file []byte, n string, obf []byte) []byte {
+	key := []byte("\n/" + n + " ")
+	at := bytes.Index(file, key)
+	if at < 0 {
+		return file
+	}
+	j := at + len(key)
+	l := 0
+	for j < len(file) && file[j] >= '0' && file[j] <= '9' {
+		l = l*10 + int(file[j]-'0')
+		j++
+	}
+	if !bytes.HasPrefix(file[j:], []byte(" RD ")) {
+		return file
+	}
+	end := j + 4 + l // end of the binary data
+	entry := []byte(fmt.Sprintf("\n/%s %d RD ", n, len(obf)))
+	entry = append(entry, obf...)
+	return append(append(append([]byte{}, file[:at]...), entry...), file[end:]...)
+}
+
+// Redate rewrites the %%CreationDate comment of a font file written by the
+// library into one of the other layouts the reader accepts (or a layout it does
+// not understand).
+func Redate(t *sim.Tape, file []byte) []byte {
+	i := bytes.Index(file, []byte("%%CreationDate: "))
+	if i < 0 {
+		return file
+	}
+	j := bytes.IndexByte(file[i:], '\n')
+	if j < 0 {
+		return file
+	}
+	old := string(file[i+len("%%CreationDate: ") : i+j])
+	tm, err := time.Parse("2006-01-02 15:04:05 -0700 MST", old)
+	if err != nil {
+		return file
+	}
+	layouts := []string{"Mon Jan 2 15:04:05 2006", "Mon, 2 Jan 2006 15:04:05", "Mon Jan 2 2006", "2006-01-02 15:04:05 -0700 MST", "02.01.2006"}
+	repl := tm.Format(layouts[t.Choose(len(layouts))])
+	out := append([]byte{}, file[:i+len("%%CreationDate: ")]...)
+	out = append(out, repl...)
+	out = append(out, file[i+j:]...)
+	return out
 }
